@@ -19,8 +19,8 @@ Import ListNotations.
 Require Import SC3.model.Osc SC3.model.OscSize.
 Require Import SC3.proofs.C06_base SC3.proofs.C06_size SC3.proofs.C06_clump
                SC3.proofs.C06_readers SC3.proofs.C06_roundtrip SC3.proofs.C06_gen
-               SC3.proofs.C06_osc10 SC3.proofs.C06_inject.
-Require Import SC3.lib.PyNum SC3.gen.Gen_size SC3.model.Osc10.
+               SC3.proofs.C06_osc10 SC3.proofs.C06_inject SC3.proofs.C06_domain.
+Require Import SC3.lib.PyNum SC3.gen.Gen_size SC3.model.Osc10 SC3.model.OscDomain.
 Open Scope Z_scope.
 
 (* ---- alignment ---------------------------------------------------------- *)
@@ -144,6 +144,36 @@ Theorem packet_roundtrip : forall nc a d fuel,
   floats4 a = true -> pkt_guard nc a = true -> build_pkt nc a = Ok d -> (length d < fuel)%nat ->
   exists p, parse_any fuel d = Ok p /\ expect nc a p.
 Proof. intros nc a d fuel Hwf Hg Hb Hf. exact (rt_all nc a Hwf Hg d Hb fuel Hf). Qed.
+
+(* ---- the encoder accepts its whole documented domain, and nothing else ------- *)
+(* [in_domain] (model/OscDomain.v) is the decidable description of what can be sent: addresses
+   and strings without NUL, addresses not empty, int32 ints, blobs of 1 .. 2^31-1 bytes, None /
+   bool / float words / [] anywhere, message- or bundle-shaped lists as blobs, balanced array
+   markers, bundle elements that are messages or bundles not earlier than their bundle
+   (_check_subtime), time tags below 2^64; with [strict = true] also: bundle elements that are
+   messages have addresses beginning with '/', and every nested list is predicted (hence is)
+   shorter than 2^31 bytes, the range of its int32 size field.
+   Success: every tree of the strict domain is accepted -- at any nesting depth, including the
+   builder's own re-parse of what it wrote.  (C07's raw-form theorem uses this as its
+   hypothesis "the encoder does not raise".) *)
+Theorem build_accepts : forall nc a,
+  floats4 a = true -> in_domain true a = true -> exists d, build_pkt nc a = Ok d.
+Proof. intros nc a Hwf Hd. exact (accepted_all nc a Hwf Hd). Qed.
+
+(* Refusal at any depth: what the (NUL-checking) encoder accepts is representable; hence a tree
+   with an int outside int32, an empty blob, a NUL in a string or address, an unsupported
+   object, a badly shaped list, unbalanced markers, an earlier nested bundle or a time tag
+   outside 64 bits ANYWHERE in it is refused -- never sent altered. *)
+Theorem accepted_is_representable : forall a d,
+  floats4 a = true -> build_pkt true a = Ok d -> in_domain false a = true.
+Proof. intros a d Hwf Hb. exact (representable_all a Hwf d Hb). Qed.
+
+Theorem unrepresentable_refused : forall a,
+  floats4 a = true -> in_domain false a = false -> exists e, build_pkt true a = Err e.
+Proof.
+  intros a Hwf Hd. destruct (build_pkt true a) as [d | e] eqn:Hb; [| eauto].
+  rewrite (accepted_is_representable a d Hwf Hb) in Hd. discriminate Hd.
+Qed.
 
 (* ---- conformance to an independent OSC 1.0 reader --------------------------- *)
 (* model/Osc10.v is a strict decoder written from the OSC 1.0 specification; it shares no
@@ -393,6 +423,15 @@ Example osc10_example :
   Osc10.decode [47; 120; 0; 0; 44; 115; 0; 0; 97; 0; 98; 0] = None /\      (* padding not NUL *)
   Osc10.decode [47; 120; 0; 0; 44; 105; 0; 0; 0; 0; 0; 1; 0; 0; 0; 0] = None.   (* bytes left over *)
 Proof. vm_compute. repeat split. Qed.
+Example domain_example :
+  in_domain true (AList [ATime (Some (1 # 2)) 2147483648;
+                         AList [AStr [47; 97]; AInt (-2147483648); AStr [91]; ANone; AList []; AStr [93]; ABytes [0]];
+                         AList [ATime (Some (1 # 2)) 18446744073709551615;
+                                AList [AStr [47; 98]; AList [AStr [99]; AFloat [63; 192; 0; 0]]]]]) = true /\
+  (* an int one above int32, three levels down: outside the domain, refused *)
+  in_domain false (AList [ATime None 1; AList [AStr [47; 97]; AList [AStr [47; 98]; AList [AStr [47; 99]; AInt 2147483648]]]]) = false /\
+  build_pkt true (AList [ATime None 1; AList [AStr [47; 97]; AList [AStr [47; 98]; AList [AStr [47; 99]; AInt 2147483648]]]]) = Err EBuild.
+Proof. vm_compute. repeat split. Qed.
 Example clump_example :
   clump_canon (clump_bundle true 64 (repeat (AList [AStr [47; 120]; AInt 1]) 5)) = (0, [2; 2; 1]) /\
   clump_canon (clump_bundle false 64 (repeat (AList [AStr [47; 120]; AInt 1]) 5)) = (0, [3; 2]).
@@ -407,5 +446,7 @@ Print Assumptions clump_sync_within_udp_limit.
 Print Assumptions osc10_agrees.
 Print Assumptions decode_unique.
 Print Assumptions size_defined.
+Print Assumptions build_accepts.
+Print Assumptions accepted_is_representable.
 Print Assumptions send_clumped_within_udp.
 Print Assumptions sync_within_udp.
